@@ -14,6 +14,46 @@ class AnalysisError(Exception):
     """The analysis cannot be carried out (missing anchor, unparsable file, ...) -> exit 2."""
 
 
+INERT_CALL_PREFIXES = ("logger.", "logging.")
+
+
+def strip_inert(tree):
+    """Analysis view of a module: logging calls used as statements are semantically inert for every property and are removed at load
+    time (`pass` fills a body that would become empty, and is otherwise dropped), so that adding or removing a log line can never
+    change a verdict.  Line numbers of the remaining nodes are untouched."""
+    for node in ast.walk(tree):
+        for field in ("body", "orelse", "finalbody"):
+            body = getattr(node, field, None)
+            if not isinstance(body, list) or not body or not isinstance(body[0], ast.stmt):
+                continue
+            kept = []
+            for st in body:
+                if isinstance(st, ast.Expr) and isinstance(st.value, ast.Call) and ast.unparse(st.value.func).startswith(INERT_CALL_PREFIXES):
+                    continue
+                if isinstance(st, ast.Pass):
+                    continue
+                kept.append(st)
+            if not kept and field == "body":
+                kept = [ast.Pass(lineno=getattr(body[0], "lineno", 1), col_offset=getattr(body[0], "col_offset", 0),
+                                 end_lineno=getattr(body[0], "end_lineno", 1), end_col_offset=getattr(body[0], "end_col_offset", 0))]
+            setattr(node, field, kept)
+    return tree
+
+
+def normalise_if_polarity(tree):
+    """`if not X: A else: B` (a plain two-armed if, no elif on either side) is read as `if X: B else: A`: the polarity in which a
+    two-way decision is written never matters to a verdict."""
+    for node in ast.walk(tree):
+        if not isinstance(node, ast.If):
+            continue
+        while (isinstance(node.test, ast.UnaryOp) and isinstance(node.test.op, ast.Not) and node.orelse
+               and not (len(node.orelse) == 1 and isinstance(node.orelse[0], ast.If))
+               and not (len(node.body) == 1 and isinstance(node.body[0], ast.If) and node.body[0].orelse)):
+            node.test = node.test.operand
+            node.body, node.orelse = node.orelse, node.body
+    return tree
+
+
 def set_parents(tree):
     for node in ast.walk(tree):
         for ch in ast.iter_child_nodes(node):
@@ -77,6 +117,8 @@ class Repo:
                     tree = ast.parse(src, filename=rel)
                 except SyntaxError as e:
                     raise AnalysisError(f"cannot parse {rel}: {e}")
+                strip_inert(tree)
+                normalise_if_polarity(tree)
                 set_parents(tree)
                 tree._modname = name
                 self.modules[name] = tree
